@@ -333,3 +333,28 @@ func (c *Ctx) AssignsAllFields(rule, fnRef, structRef string, except map[string]
 	c.Pass(rule, fnRef, what, fmt.Sprintf("%d fields", st.NumFields()))
 	return true
 }
+
+// ConsumedBefore: after every occurrence of a, an occurrence of b happens before the next
+// occurrence of stop and before the function exits ("what a produced is consumed before it is
+// overwritten or dropped").
+func (f *Fn) ConsumedBefore(rule string, a, b, stop Matcher) bool {
+	what := "after " + a.Desc + ", " + b.Desc + " happens before the next " + stop.Desc + " and before exit"
+	as := f.need(rule, a, what)
+	bs := f.need(rule, b, what)
+	if len(as) == 0 || len(bs) == 0 {
+		return false
+	}
+	targets := append([]Loc{}, f.Find(stop)...)
+	for _, e := range f.Exits() {
+		targets = append(targets, e.Loc)
+	}
+	for _, al := range as {
+		al := al
+		if p, t := f.search(&al, targets, bs); p != nil {
+			f.C.Fail(rule, f.Where(), what, f.At(al), fmt.Sprintf("from %s at %s, %s is reached without %s: %s", a.Desc, f.At(al), f.At(*t), b.Desc, f.pathString(p)))
+			return false
+		}
+	}
+	f.C.Pass(rule, f.Where(), what, fmt.Sprintf("%d×A %d×B", len(as), len(bs)))
+	return true
+}
